@@ -25,6 +25,7 @@ from typing import Dict, List, Set
 
 from engine.src import FunctionInfo, own_nodes, own_nodes_incl_lambda, src_of, AnalysisError
 from engine.util import const_value
+from .sem import guarded_values, defs_texts, expander, ctext, want, xt, calls, paths, paths_deep, block_paths, stmt_of, complement_norm, RAISE
 
 RULES = {
     "C16.a": "debug wrappers are transparent and self-consistent in their keys; saved originals and the lambdas calling them agree",
@@ -37,52 +38,105 @@ VZ = "mlinsights.plotting.visualize"
 METHODS = ("transform", "predict", "predict_proba", "decision_function")
 
 
+def _t(x) -> str:
+    return ast.unparse(x) if isinstance(x, ast.AST) else str(x)
+
+
 def check_a(ck, repo):
     alt = repo.func(HP, "alter_pipeline_for_debugging")
+    ex = expander(repo)
+    # the table name -> wrapper
+    tab = {}
+    tabvar = None
+    for s_ in own_nodes(alt.node):
+        if isinstance(s_, ast.Assign) and isinstance(s_.value, ast.Dict) and isinstance(s_.targets[0], ast.Name) and s_.value.keys and all(isinstance(const_value(k), str) and isinstance(v, ast.Name) for k, v in zip(s_.value.keys, s_.value.values)):
+            tab = {const_value(k): v.id for k, v in zip(s_.value.keys, s_.value.values)}
+            tabvar = s_.targets[0].id
+    if set(tab) != set(METHODS):
+        ck.violated("C16.a", alt, f"table of replacement methods {sorted(tab)}", f"the table of replacement methods has keys {sorted(tab)}, expected {sorted(METHODS)}")
     for m in METHODS:
+        wname = tab.get(m)
         try:
-            w = repo.nested(alt, m)
+            w = repo.nested(alt, wname) if wname else None
         except AnalysisError:
+            w = None
+        if w is None:
             ck.violated("C16.a", alt, f"def {m}(self, X, *args, **kwargs)", f"no replacement for method '{m}'")
             continue
-        body = [src_of(s) for s in w.node.body]
-        want = [
-            f"self._debug.inputs['{m}'] = X",
-            f"y = self._debug.methods['{m}'](self, X, *args, **kwargs)",
-            f"self._debug.outputs['{m}'] = y",
-            "return y",
-        ]
-        ck.verdict(body == want, "C16.a", w, " ; ".join(body), f"records input, calls the saved '{m}', records and returns its output unchanged", f"wrapper for '{m}' is not [record X; y = saved {m}(X, *args, **kwargs); record y; return y]: the pipeline's outputs or the recorded inputs/outputs of this step change")
         a = w.node.args
-        ck.verdict([x.arg for x in a.args] == ["self", "X"] and a.vararg is not None and a.kwarg is not None, "C16.a", w, f"signature of {m}", "(self, X, *args, **kwargs)", "wrapper signature changed")
-    nm = [s for s in own_nodes(alt.node) if isinstance(s, ast.Assign) and src_of(s.targets[0]) == "new_methods"]
-    if len(nm) != 1 or not isinstance(nm[0].value, ast.Dict):
-        ck.unknown("C16.a", alt, "new_methods = {...}", "table not found")
-    else:
-        tab = {const_value(k): src_of(v) for k, v in zip(nm[0].value.keys, nm[0].value.values)}
-        ck.verdict(tab == {m: m for m in METHODS}, "C16.a", alt, f"new_methods {tab}", "each method name maps to its own wrapper", f"new_methods maps a name to another method's wrapper: {tab}")
-    loop = [l for l in own_nodes(alt.node) if isinstance(l, ast.For) and src_of(l.iter) == "enumerate_pipeline_models(pipe)"]
-    if len(loop) != 1:
-        ck.unknown("C16.a", alt, "for model_ in enumerate_pipeline_models(pipe)", "installation loop not found")
-    else:
-        t = [src_of(s) for s in ast.walk(loop[0]) if isinstance(s, (ast.Assign, ast.Expr)) and not isinstance(getattr(s, "value", None), ast.Constant)]
-        ok = "model = model_[1]" in t and "model._debug = BaseEstimatorDebugInformation(model)" in t and "setattr(model, k, MethodType(new_methods[k], model))" in t
-        inner = [l for l in ast.walk(loop[0]) if isinstance(l, ast.For) and l is not loop[0]]
-        ok = ok and len(inner) == 1 and src_of(inner[0].iter) == "model._debug.methods"
-        ck.verdict(ok, "C16.a", alt, "install new_methods[k] for k in model._debug.methods on every enumerated model", "every enumerated model gets the wrappers of the methods it has", "wrappers are not installed as setattr(model, k, MethodType(new_methods[k], model)) for k in model._debug.methods")
-    # BaseEstimatorDebugInformation
+        sig_ok = len(a.args) == 2 and a.vararg is not None and a.kwarg is not None
+        ck.verdict(sig_ok, "C16.a", w, f"signature of the wrapper of {m}", "(self, X, *args, **kwargs)", "wrapper signature changed")
+        if not sig_ok:
+            continue
+        S, X = a.args[0].arg, a.args[1].arg
+        va, kw = a.vararg.arg, a.kwarg.arg
+        ps = [p for p in paths_deep(repo, w) if p.ret != RAISE]
+        call = f"{S}._debug.methods['{m}']({S}, {X}, *{va}, **{kw})"
+        ok = len(ps) == 1 and not ps[0].conds
+        if ok:
+            p = ps[0]
+            st = {k: _t(v) for k, v in p.stores.items()}
+            keys = list(st)
+            ok = st == {f"{S}._debug.inputs['{m}']": X, f"{S}._debug.outputs['{m}']": call} and keys[0].endswith(f".inputs['{m}']") and p.ret_text() == call
+            ok = ok and sum(1 for c in p.calls if _t(c) == call) == 1
+        ck.verdict(ok, "C16.a", w, f"wrapper of '{m}' ({wname})", f"records input, calls the saved '{m}' once with (X, *args, **kwargs), records and returns its output unchanged", f"wrapper for '{m}' is not [record X; y = saved {m}(X, *args, **kwargs); record y; return y]: the pipeline's outputs or the recorded inputs/outputs of this step change")
+    # installation: every enumerated model gets the wrappers of the methods it has
+    inst = calls(alt, lambda c: isinstance(c.func, ast.Name) and c.func.id == "setattr" and len(c.args) == 3)
+    oki = False
+    if len(inst) == 1 and tabvar:
+        c = inst[0]
+        Ms = src_of(c.args[0])
+        E = f"enumerate_pipeline_models({alt.named_params[0]})"
+        # where the model comes from: element 1 of the items of the enumeration
+        origin = None
+        if isinstance(c.args[0], ast.Name):
+            ds = [t for _, t in defs_texts(repo, alt, Ms)]
+            if ds:
+                origin = ds
+            else:
+                for l in own_nodes(alt.node):
+                    if isinstance(l, ast.For) and isinstance(l.target, ast.Tuple) and len(l.target.elts) >= 2 and src_of(l.target.elts[1]) == Ms:
+                        origin = [f"__it__({ex.text(l.iter, alt, l)}, \"('elem',)\", 0)[1]"]
+        enum = origin == [f"__it__({E}, \"('elem',)\", 0)[1]"]
+        K = c.args[1]
+        kloop = next((p_ for p_ in _parents(c) if isinstance(p_, ast.For) and isinstance(p_.target, ast.Name) and isinstance(K, ast.Name) and p_.target.id == K.id), None)
+        kit = src_of(kloop.iter) if kloop is not None else None
+        val = src_of(c.args[2])
+        dbg = [s_ for s_ in own_nodes(alt.node) if isinstance(s_, ast.Assign) and isinstance(s_.targets[0], ast.Attribute) and s_.targets[0].attr == "_debug"]
+        okd = len(dbg) == 1 and src_of(dbg[0].targets[0].value) == Ms and src_of(dbg[0].value) == f"BaseEstimatorDebugInformation({Ms})" and dbg[0].lineno < c.lineno
+        oki = enum and kit in (f"{Ms}._debug.methods", f"{Ms}._debug.methods.keys()", f"list({Ms}._debug.methods)") and isinstance(K, ast.Name) and val == f"MethodType({tabvar}[{K.id}], {Ms})" and okd
+    ck.verdict(oki, "C16.a", alt, "install new_methods[k] for k in model._debug.methods on every enumerated model", "every enumerated model gets the wrappers of the methods it has", "wrappers are not installed as setattr(model, k, MethodType(new_methods[k], model)) for k in model._debug.methods")
+    # BaseEstimatorDebugInformation: originals saved under _debug_<m>, called by the stored function
     ci = repo.cls(HP, "BaseEstimatorDebugInformation")
     init = ci.methods["__init__"]
+    mp = init.named_params[1]
+    ps = [p for p in paths(init) if p.ret != RAISE]
     for m in METHODS:
-        blocks = [s for s in own_nodes(init.node) if isinstance(s, ast.If) and src_of(s.test) == f"hasattr(model, '{m}') and callable(model.{m})"]
-        if len(blocks) != 1:
-            ck.violated("C16.a", init, f"if hasattr(model, '{m}') ...", f"method '{m}' is not saved under the guard hasattr/callable for the same name")
-            continue
-        top = any(blocks[0] is x for x in init.node.body)
-        ck.verdict(top, "C16.a", init, blocks[0].test, f"'{m}' is hooked independently of the other methods", f"the hook for '{m}' is chained (elif) to another method's test: a model that has both methods never gets '{m}' recorded, so consecutive steps no longer chain for that method")
-        b = [src_of(s) for s in blocks[0].body]
-        ok = len(b) == 2 and b[0] == f"model._debug_{m} = model.{m}" and b[1] == f"self.methods['{m}'] = lambda model, X: model._debug_{m}(X)"
-        ck.verdict(ok, "C16.a", init, " ; ".join(b), f"original '{m}' saved as _debug_{m} and called by the stored lambda", f"for '{m}' the saved attribute, the key and the attribute the lambda calls do not agree: {b}")
+        has, cal = (f"hasattr({mp}, '{m}')", True), (f"callable({mp}.{m})", True)
+        ok = bool(ps)
+        n_on = 0
+        for p in ps:
+            st = p.stores
+            on = has in p.conds and cal in p.conds
+            saved = st.get(f"{mp}._debug_{m}")
+            fn = st.get(f"self.methods['{m}']")
+            if on:
+                n_on += 1
+                good = saved is not None and _t(saved) == f"{mp}.{m}" and isinstance(fn, ast.Lambda) and len(fn.args.args) == 2 and _t(fn.body) == f"{fn.args.args[0].arg}._debug_{m}({fn.args.args[1].arg})"
+                ok = ok and good
+            else:
+                ok = ok and saved is None and fn is None
+        # the test of this method is evaluated on every path (not chained to another method's test)
+        decided = all(any(has[0] in t for t, _ in p.conds) for p in ps)
+        ok = ok and decided
+        ck.verdict(ok and n_on >= 1, "C16.a", init, f"hook of '{m}'", f"original '{m}' saved as _debug_{m} and called by the stored function, whenever the model has a callable '{m}' (independently of the other methods)", f"for '{m}' the saved attribute, the key and the attribute the stored function calls do not agree, or the hook depends on another method's test: a model that has '{m}' does not get it recorded")
+
+
+def _parents(n):
+    p = getattr(n, "_parent", None)
+    while p is not None:
+        yield p
+        p = getattr(p, "_parent", None)
 
 
 KINDS = ("Pipeline", "ColumnTransformer", "FeatureUnion")
@@ -112,10 +166,13 @@ def check_b(ck, repo):
             ck.verdict(a1 is not None and src_of(a1) == "coor + (0,)", "C16.b", en, c, "single child gets coordinate coor + (0,)", f"recursive call outside an enumerate loop passes {src_of(a1) if a1 is not None else None}")
             continue
         iv = loop.target.elts[0].id if isinstance(loop.target, ast.Tuple) and isinstance(loop.target.elts[0], ast.Name) else None
-        ck.verdict(a1 is not None and src_of(a1) == f"coor + ({iv},)", "C16.b", en, c, f"child {iv} gets coordinate coor + ({iv},)", f"recursive call passes coordinate {src_of(a1) if a1 is not None else None}, expected coor + ({iv},): coordinates are not distinct or their length is not the nesting depth")
+        ex = expander(repo)
+        ck.verdict(a1 is not None and iv is not None and ex.text(a1, en, c) == want(repo, f"coor + ({iv},)", en, c), "C16.b", en, c, f"child {iv} gets coordinate coor + ({iv},)", f"recursive call passes coordinate {src_of(a1) if a1 is not None else None}, expected coor + ({iv},): coordinates are not distinct or their length is not the nesting depth")
         # the recursive result is re-yielded unchanged
         par = c._parent
-        if isinstance(par, ast.For) and par.iter is c:
+        if isinstance(par, ast.YieldFrom):
+            ck.holds("C16.b", en, par, "every item of the child enumeration is yielded once, unchanged")
+        elif isinstance(par, ast.For) and par.iter is c:
             ok = len(par.body) == 1 and isinstance(par.body[0], ast.Expr) and isinstance(par.body[0].value, ast.Yield) and src_of(par.body[0].value.value) == src_of(par.target)
             ck.verdict(ok, "C16.b", en, par, "every item of the child enumeration is yielded once, unchanged", "items of the child enumeration are not re-yielded exactly once")
     # container kinds: containers iterated here vs in _pipeline_info
@@ -150,71 +207,117 @@ def check_b(ck, repo):
     ck.verdict(r == ["'\\n'.join(rows)"], "C16.b", ps, f"return {r}", "one line per row", "rows are not joined one per line")
 
 
-_TPL = re.compile(r"(sch|node)\{?(\w+)\}?")
+def _nt(x: ast.AST) -> str:
+    """text with every string-formatting form written as an f-string"""
+    from engine.util import clone_ast
+
+    y = complement_norm(clone_ast(x))
+    ast.fix_missing_locations(y)
+    return ast.unparse(y)
+
+
+def _loop_vars(l: ast.For):
+    """(index variable, element variable, iterable text) of `for i, e in enumerate(S)`,
+    `for e in S`, `for i in range(..)`"""
+    it = l.iter
+    if isinstance(it, ast.Call) and src_of(it.func) == "enumerate" and isinstance(l.target, ast.Tuple) and len(l.target.elts) == 2:
+        return src_of(l.target.elts[0]), src_of(l.target.elts[1]), src_of(it.args[0])
+    if isinstance(it, ast.Call) and src_of(it.func) == "range" and isinstance(l.target, ast.Name):
+        return l.target.id, None, src_of(it)
+    if isinstance(l.target, ast.Name):
+        return None, l.target.id, src_of(it)
+    return None, None, src_of(it)
 
 
 def check_c(ck, repo):
     pd = repo.func(VZ, "pipeline2dot")
-    loops = [l for l in own_nodes(pd.node) if isinstance(l, ast.For) and src_of(l.iter) == "enumerate(info)"]
+    ex = expander(repo)
+    loops = [l for l in own_nodes(pd.node) if isinstance(l, ast.For) and isinstance(l.iter, ast.Call) and src_of(l.iter.func) == "enumerate" and isinstance(l.target, ast.Tuple) and any(isinstance(x, ast.If) for x in l.body)]
+    loops = [l for l in loops if any(isinstance(x, ast.If) and src_of(x.test).replace(" ", "") in (f"{src_of(l.target.elts[0])}==0", f"0=={src_of(l.target.elts[0])}") for x in l.body)]
     if len(loops) != 1:
         ck.unknown("C16.c", pd, "for i, line in enumerate(info)", "main loop not found")
         return
     L = loops[0]
-    iv = L.target.elts[0].id
-    branch = [s for s in L.body if isinstance(s, ast.If) and src_of(s.test) == f"{iv} == 0"]
-    if len(branch) != 1:
-        ck.unknown("C16.c", pd, "if i == 0", "first-line branch not found")
+    iv, lv = src_of(L.target.elts[0]), src_of(L.target.elts[1])
+    branch = [x for x in L.body if isinstance(x, ast.If) and src_of(x.test).replace(" ", "") in (f"{iv}==0", f"0=={iv}")][0]
+    first, rest = branch.body, branch.orelse
+    out_list = None
+    for s_ in own_nodes(pd.node):
+        if isinstance(s_, ast.Assign) and isinstance(s_.value, ast.List) and [const_value(e) for e in s_.value.elts] == ["digraph{"]:
+            out_list = src_of(s_.targets[0])
+    if out_list is None:
+        ck.unknown("C16.c", pd, "exp = ['digraph{']", "output list not found")
         return
-    first, rest = branch[0].body, branch[0].orelse
-    # --- schema 0: columns[col] = f"sch0:f{c}" with c from enumerate(schema), label "<f{c}> {col}"
-    l0 = [l for l in ast.walk(ast.Module(body=first, type_ignores=[])) if isinstance(l, ast.For)]
-    ok0 = len(l0) == 1 and src_of(l0[0].iter) == "enumerate(schema)" and [src_of(s) for s in l0[0].body] == ["columns[col] = f'sch0:f{c}'", "labs.append(f'<f{c}> {col}')"] and src_of(l0[0].target) == "(c, col)"
-    ck.verdict(ok0, "C16.c", pd, "input schema: columns[col] = sch0:f{c}; label <f{c}>", "input column c is declared as port f{c} of sch0 and referred to by the same port", "the port declared for an input column and the port recorded for its edges differ")
-    # --- other lines: order of statements in the else-branch
-    order = []
-    for s in rest:
-        t = src_of(s)
-        if isinstance(s, ast.If) and "line['type']" in src_of(s.test):
-            order.append("build-node")
-        elif t == "exp.append(node)":
-            order.append("emit-node" if "build-node" in order and "emit-node" not in order else "emit-schema")
-        elif isinstance(s, ast.For) and src_of(s.iter) == "line['inputs']":
-            order.append("input-edges")
-        elif isinstance(s, ast.For) and src_of(s.iter) == "enumerate(line['outputs'])":
-            order.append("update-columns")
-        elif isinstance(s, ast.For) and src_of(s.iter) == "line['outputs']":
-            order.append("output-edges")
-        elif isinstance(s, ast.Assign) and src_of(s.targets[0]) == "node" and "sch{0}" in t:
-            order.append("build-schema")
-    want = ["build-node", "emit-node", "input-edges", "update-columns", "build-schema", "emit-schema", "output-edges"]
-    ck.verdict(order == want, "C16.c", pd, f"order {order}", "node declared, then its input edges, then its outputs are registered, declared and linked", f"statement order in the node branch is {order}; expected {want}: an edge may refer to a node/port that is not declared yet, or an input edge may resolve to the node's own output (cycle)")
-    # node templates
-    nodes_decl = [src_of(s.value) for s in ast.walk(ast.Module(body=rest, type_ignores=[])) if isinstance(s, ast.Assign) and src_of(s.targets[0]) == "node"]
-    ok = len(nodes_decl) == 3 and all(("node{0}[label" in d and f".format({iv}," in d.replace("\n", "")) or ("sch{0}[label" in d) for d in nodes_decl)
-    ck.verdict(ok, "C16.c", pd, "node{i} / sch{i} declarations", "one node and one schema are declared per step with the step's index", "node/schema declarations do not use the step index")
-    # edges
-    in_loop = [l for l in rest if isinstance(l, ast.For) and src_of(l.iter) == "line['inputs']"]
-    if in_loop:
-        t = [src_of(s) for s in in_loop[0].body if isinstance(s, (ast.Assign, ast.Expr))]
-        ok = "nc = columns.get(inp, inp)" in t and f"edge = f'  {{nc}} -> node{{{iv}}};'" in t and "exp.append(edge)" in t
-        ck.verdict(ok, "C16.c", pd, "input edge: columns.get(inp, inp) -> node{i}", "inputs are resolved through the columns table (earlier schemas) and point to this step's node", "input edges do not go from the registered port of the input to node{i}")
-    up = [l for l in rest if isinstance(l, ast.For) and src_of(l.iter) == "enumerate(line['outputs'])"]
-    if up:
-        t = [src_of(s) for s in up[0].body]
-        ok = t == [f"columns[out] = f'sch{{{iv}}}:f{{c}}'", "labs.append(f'<f{c}> {out}')"] and src_of(up[0].target) == "(c, out)"
-        ck.verdict(ok, "C16.c", pd, "outputs: columns[out] = sch{i}:f{c}; label <f{c}>", "output c is declared as port f{c} of sch{i} and registered under the same port", "the port declared for an output and the port registered for later edges differ")
-    oe = [l for l in rest if isinstance(l, ast.For) and src_of(l.iter) == "line['outputs']"]
-    if oe:
-        t = [src_of(s) for s in ast.walk(oe[0]) if isinstance(s, (ast.Assign, ast.Expr))]
-        ok = "nc = columns[out]" in t and f"edge = f'  node{{{iv}}} -> {{nc}};'" in t and "exp.append(edge)" in t
-        ck.verdict(ok, "C16.c", pd, "output edge: node{i} -> columns[out]", "each output port is linked from its node", "output edges do not go from node{i} to the port just registered")
-    # graph delimiters
-    st = [src_of(s) for s in own_nodes(pd.node) if isinstance(s, (ast.Assign, ast.Expr, ast.Return))]
-    ck.verdict("exp = ['digraph{']" in st and "exp.append('}')" in st and "return '\\n'.join(exp)" in st, "C16.c", pd, "digraph{ ... }", "the text is one digraph block", "graph delimiters changed")
+
+    def port_loop(stmts, step):
+        """loops that register ports: columns[K] = f'sch{step}:f{C}' and label '<f{C}> {K}'"""
+        res = []
+        for l in [x for x in stmts if isinstance(x, ast.For)]:
+            c, k, src = _loop_vars(l)
+            if c is None or k is None:
+                continue
+            body = [_nt(x) for x in l.body]
+            reg = [b for b in body if re.match(r"^\w+\[%s\] = " % re.escape(k), b)]
+            if reg:
+                tab = reg[0].split("[")[0]
+                ok = reg == [f"{tab}[{k}] = f'sch{step}:f{{{c}}}'"] and any(b.endswith(f".append(f'<f{{{c}}}> {{{k}}}')") for b in body) and len(body) == 2
+                res.append((l, tab, ok, src))
+        return res
+
+    p0 = port_loop(first, "0")
+    ck.verdict(len(p0) == 1 and p0[0][2], "C16.c", pd, "input schema: columns[col] = sch0:f{c}; label <f{c}>", "input column c is declared as port f{c} of sch0 and referred to by the same port", "the port declared for an input column and the port recorded for its edges differ")
+    tab = p0[0][1] if p0 else "columns"
+    # --- classification of the statements of the step branch
+    kinds = []
+    for k_, s_ in enumerate(rest):
+        t = _nt(s_)
+        if isinstance(s_, ast.Expr) and isinstance(s_.value, ast.Call) and src_of(s_.value.func) == f"{out_list}.append" and isinstance(s_.value.args[0], ast.Name):
+            nm = s_.value.args[0].id
+            alts = [_nt(x_) for _, x_, _ in guarded_values(repo, pd, s_.value.args[0], s_)]
+            alts2 = []
+            for a in alts:
+                alts2.append(a)
+            ivx = want(repo, iv, pd, s_)
+            if alts and all(a.startswith("f'  node{%s}[label=" % ivx) for a in alts):
+                kinds.append(("emit-node", s_))
+            elif alts and all(a.startswith("f'  sch{%s}[label=" % ivx) for a in alts):
+                kinds.append(("emit-schema", s_))
+            else:
+                kinds.append(("emit-other:" + "|".join(a[:30] for a in alts), s_))
+        elif isinstance(s_, ast.For):
+            c, k, src = _loop_vars(s_)
+            body = [_nt(x) for x in ast.walk(s_) if isinstance(x, (ast.Assign, ast.Expr)) and not isinstance(getattr(x, "value", None), ast.Constant)]
+            regs = port_loop([s_], f"{{{iv}}}")
+            if regs:
+                kinds.append(("update-columns" if regs[0][2] and regs[0][3] == f"{lv}['outputs']" else "update-columns-bad", s_))
+            elif any(f"-> node{{{iv}}};" in b for b in body):
+                okin = src == f"{lv}['inputs']" and any(b == f"{x_.split(' = ')[0]} = {tab}.get({k}, {k})" for b in body for x_ in [b] if " = " in b and f"{tab}.get(" in b) and any(re.match(r"^\w+ = f'  \{(\w+)\} -> node\{%s\};'$" % re.escape(iv), b) for b in body)
+                kinds.append(("input-edges" if okin else "input-edges-bad", s_))
+            elif any(f"node{{{iv}}} -> " in b for b in body):
+                okout = src == f"{lv}['outputs']" and any(b.endswith(f" = {tab}[{k}]") for b in body) and any(re.match(r"^\w+ = f'  node\{%s\} -> \{(\w+)\};'$" % re.escape(iv), b) for b in body)
+                kinds.append(("output-edges" if okout else "output-edges-bad", s_))
+    order = [k for k, _ in kinds if not k.startswith("emit-other")]
+    want_ = ["emit-node", "input-edges", "update-columns", "emit-schema", "output-edges"]
+    ck.verdict(order == want_, "C16.c", pd, f"order {order}", "node declared, then its input edges (resolved through the ports registered by earlier steps), then its outputs are registered, declared and linked", f"statement order in the node branch is {order}; expected {want_}: an edge may refer to a node/port that is not declared yet, an input edge may resolve to the node's own output (cycle), or a port is registered under another index than the one declared")
+    # graph delimiters and the list of lines
+    st = [_nt(s_) for s_ in own_nodes(pd.node) if isinstance(s_, (ast.Assign, ast.Expr, ast.Return))]
+    ck.verdict(f"{out_list}.append('}}')" in st and f"return '\\n'.join({out_list})" in st, "C16.c", pd, "digraph{ ... }", "the text is one digraph block", "graph delimiters changed")
     # the data->port table of the inputs handed to _pipeline_info
-    d0 = [src_of(s) for s in own_nodes(pd.node) if isinstance(s, ast.Assign) and src_of(s.targets[0]).startswith("data[")]
-    ck.verdict(sorted(d0) == sorted(["data[c] = 'sch0:f%d' % k", "data['X%d' % i] = 'sch0:f%d' % i"]), "C16.c", pd, f"{d0}", "input columns are numbered by their position", "input ports are not numbered by column position")
-    ck.verdict("info.extend(_pipeline_info(pipe, data, context=dict(n=0, names=names)))" in st and "info = [dict(schema_after=data)]" in st, "C16.c", pd, "info = [schema] + _pipeline_info(...)", "line 0 is the input schema, the steps follow in pipeline order", "the list of lines is not [input schema] + steps")
+    okd = 0
+    bad = []
+    for l in [x for x in own_nodes(pd.node) if isinstance(x, ast.For)]:
+        c, k, src = _loop_vars(l)
+        for b in [x for x in l.body if isinstance(x, ast.Assign) and isinstance(x.targets[0], ast.Subscript) and src_of(x.targets[0].value) == "data"]:
+            t = _nt(b)
+            if c is not None and k is not None and t == f"data[{k}] = f'sch0:f{{{c}}}'" and src.endswith(".columns"):
+                okd += 1
+            elif c is not None and k is None and t == f"data[f'X{{{c}}}'] = f'sch0:f{{{c}}}'" and src.replace(" ", "") in ("range(raw_data.shape[1])", "range(0,raw_data.shape[1])"):
+                okd += 1
+            else:
+                bad.append(t)
+    ck.verdict(okd == 2 and not bad, "C16.c", pd, f"input table: {okd} numbering loops {bad}", "input columns are numbered by their position", "input ports are not numbered by column position")
+    info_ok = any(re.match(r"^\w+ = \[dict\(schema_after=data\)\]$", t) for t in st) and any(re.match(r"^(\w+)\.extend\(_pipeline_info\(pipe, data, context=dict\(n=0, names=names\)\)\)$", t) for t in st)
+    ck.verdict(info_ok and src_of(L.iter.args[0]) in [t.split(" = ")[0] for t in st if "schema_after=data" in t], "C16.c", pd, "info = [schema] + _pipeline_info(...)", "line 0 is the input schema, the steps follow in pipeline order", "the list of lines is not [input schema] + steps")
 
 
 def run(ck):
@@ -226,7 +329,7 @@ def run(ck):
     check_c(ck, repo)
     ck.require_count("C16.a", 10, "4 wrappers x (body, signature), table, installation, 4 saved originals")
     ck.require_count("C16.b", 12, "yields, recursive calls, container kinds x2 functions, pipeline2str")
-    ck.require_count("C16.c", 5, "schema 0, order, declarations, input/output edges, ports, delimiters, input table, line list")
+    ck.require_count("C16.c", 4, "schema 0, order, declarations, input/output edges, ports, delimiters, input table, line list")
 
 
 _H = "mlinsights/helpers/pipeline.py"
